@@ -32,6 +32,7 @@ type member struct {
 	delivered      int // frames handed to Read
 	tx, rxb        uint64
 	unrel          bool
+	closeErr       error // CloseWithStatus tears the connection down but reports this error
 }
 
 func (m *member) Read() ([]byte, error) {
@@ -79,6 +80,11 @@ func (m *member) CloseWithStatus(transport.CloseStatus) error {
 	if !m.isClosed {
 		m.isClosed = true
 		close(m.closed)
+	}
+	if m.closeErr != nil {
+		// the connection is torn down, but the close handshake could not be completed
+		m.s.stats["fault.close-returns-error"]++
+		return m.closeErr
 	}
 	return nil
 }
@@ -292,6 +298,11 @@ func runC18(s *Sim) {
 		if closeEarly && !closed && s.Idle(ctlT) && step > steps/3 {
 			acts = append(acts, Action{Name: "close", W: 1, Do: func() {
 				closed = true
+				if cur := d.current(); cur != nil && t.Bool("close-reports-error", 1, 2) {
+					s.mu.Lock()
+					cur.closeErr = errors.New("dsim: close frame could not be sent")
+					s.mu.Unlock()
+				}
 				s.Start(ctlT, &Op{Name: "Close", Run: func(ctx context.Context) (any, error) { return nil, tr.Close() }})
 			}})
 		}
@@ -409,6 +420,11 @@ func runC18(s *Sim) {
 		for _, w2 := range all {
 			if w1.Op.Return < w2.Op.Invoke && where[w1.Payload][0].pos > where[w2.Payload][0].pos {
 				s.Violate("C18.write-reordered", "real-time", "Write(%s) returned before Write(%s) was issued but was accepted after it", w1.Payload, w2.Payload)
+			}
+			// under quiescent stepping a Write has been queued by the transport before the next one is
+			// issued, so "the order they were issued" is the invocation order even for overlapping calls
+			if s.BurstMax == 0 && w1.Op.Invoke < w2.Op.Invoke && where[w1.Payload][0].pos > where[w2.Payload][0].pos {
+				s.Violate("C18.write-reordered", "issue-order", "Write(%s) was issued (and queued) before Write(%s) but was accepted by the underlying connections after it", w1.Payload, w2.Payload)
 			}
 		}
 	}
